@@ -9,6 +9,7 @@ CONSTANTS
   TGs = {"ok", "stale"}
   Exts = {"le", "ce", "fence", "ld1", "ld2", "ld3"}
   WfExtra = {"blocked", "failed"}
+  BatchRGs = {"none", "ok", "ce", "le", "ld", "ftok", "fver"}
   MaxCE = 1000000
   MaxLE = 1000000
   MaxFver = 1000000
